@@ -317,6 +317,15 @@ func check(sc *Scenario, res *vsched.Result, w *World) (sig, what string) {
 			keys = append(keys, k)
 		}
 		sort.Strings(keys)
+		for _, rc := range res.Races {
+			if rc.RootA == "Vaxis.Close@library-goroutine" || rc.RootB == "Vaxis.Close@library-goroutine" {
+				// a consequence of the race reported for this very execution: Close on the input
+				// goroutine and Render on the main goroutine write into the same writer buffer,
+				// and one Flush drops what the other had appended
+				return ID + "|race|close-on-input-goroutine|consequence:not-restored|" + sc.Name,
+					fmt.Sprintf("Close ran on the input goroutine concurrently with the main goroutine (data race on %s) and the terminal was not restored: %v", rc.Field, d)
+			}
+		}
 		return ID + "|not-restored|" + sc.Name + "|" + strings.Join(keys, ","), fmt.Sprintf("terminal state after Close differs from the state before New: %v", d)
 	}
 	return "", ""
